@@ -187,6 +187,8 @@ func vfRunRefuse(c vfFaultCase, seed uint64) (o vfFaultOut) {
 			if m == "go" {
 				telling.Store(true)
 				ctx.Tell(ref, vfNewNetMsg(7, 1, 10, false))
+				ctx.Tell(ref, vfNewNetMsg(7, 2, 10, false))
+				ctx.Tell(ref, vfNewNetMsg(7, 3, 10, false))
 				telling.Store(false)
 				mu.Lock()
 				order = append(order, "tell-returned")
@@ -236,18 +238,37 @@ func vfRunRefuse(c vfFaultCase, seed uint64) (o vfFaultOut) {
 		}
 		time.Sleep(5 * time.Millisecond)
 	}
-	time.Sleep(100 * time.Millisecond)
-	a.obs.mu.Lock()
-	ndl := 0
-	for _, d := range a.obs.dl {
-		if d == "vfNetMsg#7:1" {
-			ndl++
+	// the dead letter follows once the retry budget is used up (it no longer has to precede the return of Tell)
+	countDL := func() (per [4]int, n, cf int) {
+		a.obs.mu.Lock()
+		defer a.obs.mu.Unlock()
+		for _, d := range a.obs.dl {
+			for q := 1; q <= 3; q++ {
+				if d == fmt.Sprintf("vfNetMsg#7:%d", q) {
+					per[q]++
+					n++
+				}
+			}
+		}
+		return per, n, a.obs.connFail
+	}
+	for tEnd = time.Now().Add(40 * time.Second); time.Now().Before(tEnd); time.Sleep(10 * time.Millisecond) {
+		if _, n, _ := countDL(); n >= 3 {
+			break
 		}
 	}
-	connFail := a.obs.connFail
-	a.obs.mu.Unlock()
-	if ndl != 1 {
-		o.add("c14-dead-letter-count", "unreachable", "message to a peer that was unreachable for the whole retry budget (limit %d) produced %d dead letters on the sender, want exactly 1 (connection-failed events: %d)", c.Limit, ndl, connFail)
+	time.Sleep(300 * time.Millisecond)
+	per, ndl, connFail := countDL()
+	if per[1] != 1 || per[2] != 1 || per[3] != 1 {
+		o.add("c14-dead-letter-count", "unreachable", "3 messages to a peer that was unreachable for the whole retry budget (limit %d) produced %v dead letters on the sender, want exactly 1 each (connection-failed events: %d)", c.Limit, per[1:], connFail)
+	}
+	// the actor must have gone on with its mailbox while the delivery was being retried: with at least one retry
+	// (>= 100 ms backoff) the three local messages are handled long before the first dead letter
+	mu.Lock()
+	localsDone := len(order) >= 4
+	mu.Unlock()
+	if c.Limit > 0 && !localsDone {
+		o.add("c14-actor-stalled-during-retry", "mailbox", "the sending actor had not handled its 3 local messages when the remote messages were given up")
 	}
 	if c.Limit > 0 { // with retries there is a sleep the caller can be caught in
 		if blockedStack != "" {
@@ -401,7 +422,23 @@ func vfRunOversize(c vfFaultCase, seed uint64) (o vfFaultOut) {
 	case <-time.After(30 * time.Second):
 		o.add("c14-tell-blocked-on-oversize", "oversize", "Tell of an oversize message (or the ones after it) did not return within 30 s")
 	}
-	vfWaitCount(b.sink, 3, 2*time.Second)
+	// logical completion: the three normal messages arrived and the oversize one was reported (generous watchdog only)
+	dlOversize := func() (n int) {
+		a.obs.mu.Lock()
+		defer a.obs.mu.Unlock()
+		for _, d := range a.obs.dl {
+			if d == "vfNetMsg#1:2" {
+				n++
+			}
+		}
+		return
+	}
+	for end := time.Now().Add(60 * time.Second); time.Now().Before(end) && (b.sink.n.Load() < 3 || dlOversize() < 1); {
+		time.Sleep(20 * time.Millisecond)
+		if b.sink.n.Load() >= 3 && time.Now().After(end.Add(-55*time.Second)) {
+			break // delivered; 5 s were enough for a dead letter to show up
+		}
+	}
 	seqs := vfCheckSubsequence(b.sink.snapshot(), 1, 4, &o)
 	if fmt.Sprint(seqs) != "[1 3 4]" {
 		o.add("c14-oversize-disturbs-link", "oversize", "messages 1, 3, 4 (normal) and 2 (5 MiB, cannot be framed): delivered %v, want [1 3 4]", seqs)
